@@ -10,12 +10,17 @@ from ..runtime import get_runtime, normalize_function, first_difference, show, l
 
 INFO = {
     'explanation': (
-        'Decides C20 completely in the sufficient direction: the importable base class '
-        '(utilities/abstract_excel_in_python_class.py) and the class obtained from Context.__class_template '
-        '(string constant, instantiated with sentinel holes) are compared member by member as syntax trees after '
-        'normalisation (annotations, docstrings, comments dropped; AnnAssign->Assign; local variables alpha-renamed in '
-        'binding order; decorators as sets). Equal trees under equal import bindings compute equal results for every '
-        'argument. R1 same member sets, R2 same trees per member, R3 same import bindings for every free name.'),
+        'Decides C20 in the sufficient direction: the importable base class (utilities/abstract_excel_in_python_class.py) and the '
+        'class obtained from Context.__class_template (string constant, instantiated with sentinel holes) are compared member by '
+        'member as syntax trees in a canonical form (sa/canon.py: annotations, docstrings dropped; locals, nested functions and '
+        'parameters never passed by keyword alpha-renamed; guard clauses nested; negation normal form, fixed polarity of two-armed '
+        'choices; return-if folding; no-op pass / continue / return dropped; iterated list displays as tuples; class-level constants '
+        'inlined; class patterns as isinstance chains; private one-copy helpers inlined into their callers). Equal canonical trees '
+        'under equal import bindings compute equal results for every argument. A residual difference is classified by its edit '
+        'script: a local patch (at most 4 edits, each a changed name / constant / operator, an operation applied in one copy only, or '
+        'statements / arguments present in one copy only) is a violation; a re-spelling (structural differences, or statements '
+        'exchanged for other statements) is UNDECIDED: not covered, listed under undecided_members. R1 same member sets, R2 same '
+        'canonical trees per member, R3 same import bindings for every free name.'),
     'rule': 'one obligation per runtime member per rule; non-trivial = member present in both copies with a body to compare',
     'trusted': ['str.format instantiation of the template constant with sentinel names is faithful to Context.build_class '
                 '(checked by C06.R6: the holes are exactly titles/sheets_size/functions)'],
@@ -90,17 +95,84 @@ def _free_names(fn: ast.FunctionDef):
     return {n for n in out if n in body_names}
 
 
+def _emitted_helper_names(src) -> set:
+    """names N for which some translator emits `self.N(`"""
+    import re
+    out = set()
+    for m in src.modules.values():
+        for n in ast.walk(m.tree):
+            if isinstance(n, ast.Constant) and isinstance(n.value, str) and len(n.value) < 4000:
+                out.update(re.findall(r'self\.(\w+)\(', n.value))
+    return out
+
+
+def _keyword_names(src, rt) -> dict:
+    """member name -> parameter names that some call of that member passes by keyword (in the runtime copies or in emitted code)"""
+    import re
+    out = {}
+    for cp in rt.copies():
+        for fn in cp.members.values():
+            for n in ast.walk(fn):
+                if isinstance(n, ast.Call) and isinstance(n.func, ast.Attribute) and n.keywords:
+                    out.setdefault(n.func.attr, set()).update(k.arg for k in n.keywords if k.arg)
+    for m in src.modules.values():
+        for n in ast.walk(m.tree):
+            txt = None
+            if isinstance(n, ast.Constant) and isinstance(n.value, str) and len(n.value) < 4000:
+                txt = n.value
+            elif isinstance(n, ast.JoinedStr):
+                txt = ''.join(v.value if isinstance(v, ast.Constant) else '_' for v in n.values)
+            if txt and 'self.' in txt:
+                names = re.findall(r'self\.(\w+)\(', txt)
+                kws = set(re.findall(r'(\w+)=(?!=)', txt))
+                for nm in names:
+                    out.setdefault(nm, set()).update(kws)
+    return out
+
+
+MAX_UNDECIDED = 6
+MAX_LOCAL_EDITS = 4
+
+
 def run(run: Run):
+    from ..canon import canonical, copy_context, edit_script
+    from ..inline import inline_methods, members_resolver
     src = get_source()
     rt = get_runtime(src)
     base, tmpl = rt.base, rt.template
     run.rule('C20.R1', 'the base class and the template class expose the same members (methods and nested classes)')
-    run.rule('C20.R2', 'each shared member has the same normalised syntax tree in both copies')
+    run.rule('C20.R2', 'each shared member has the same canonical syntax tree in both copies')
     run.rule('C20.R3', 'every free name a member uses is bound to the same import in both modules')
 
+    emitted = _emitted_helper_names(src)
+    kwnames = _keyword_names(src, rt)
+
+    # helpers that exist in one copy only, are private and are not called by emitted code are a local way of writing their
+    # callers: they are inlined into the callers before the comparison
+    members = {}
+    for cp, other in ((base, tmpl), (tmpl, base)):
+        only = {n for n in cp.members if n not in other.members and n.startswith('_') and not n.startswith('__') and
+                '.' not in n and n not in emitted}
+        ms = dict(cp.members)
+        if only:
+            sub = {n: ms[n] for n in only}
+            res = members_resolver(sub)
+            for n in list(ms):
+                if n in only:
+                    continue
+                if any(isinstance(c, ast.Call) and isinstance(c.func, ast.Attribute) and c.func.attr in only for c in ast.walk(ms[n])):
+                    ms[n] = inline_methods(ms[n], res, depth=3)
+            still = {n for n in only if any(isinstance(c, ast.Attribute) and c.attr == n for m2, f2 in ms.items() if m2 not in only
+                                            for c in ast.walk(f2))}
+            for n in only - still:
+                run.note(f'C20.R1 {n}: private helper of the {cp.label} copy only, inlined into its callers')
+                ms.pop(n)
+        members[cp.label] = ms
+    mb, mt = members['base'], members['template']
+
     # R1 ---------------------------------------------------------------------------------------
-    names_b = set(base.members) | set(base.nested)
-    names_t = set(tmpl.members) | set(tmpl.nested)
+    names_b = set(mb) | set(base.nested)
+    names_t = set(mt) | set(tmpl.nested)
     for n in sorted(names_b | names_t):
         inb, int_ = n in names_b, n in names_t
         if inb and int_:
@@ -122,27 +194,62 @@ def run(run: Run):
                   fact='same bases and class-level statements', loc=tmpl.loc(ct))
 
     # R2 ---------------------------------------------------------------------------------------
-    for n in sorted(set(base.members) & set(tmpl.members)):
-        fb, ft = base.members[n], tmpl.members[n]
-        nb, nt = normalize_function(fb), normalize_function(ft)
-        d = _diff(nb, nt)
-        nontrivial = len(ft.body) > 1 or not isinstance(ft.body[0], (ast.Pass, ast.Return))
-        if d is None and _deco(fb) == _deco(ft):
-            run.ok('C20.R2', n, 'normalised trees equal', nontrivial=True, loc=tmpl.loc(ft))
-        elif d is None:
-            run.bad('C20.R2', n, 'decorators', f'decorators differ: base {sorted(_deco(fb))} vs template {sorted(_deco(ft))}',
-                    loc=tmpl.loc(ft))
+    ctx_b, ctx_t = copy_context(base), copy_context(tmpl)
+    undecided = []
+    for n in sorted(set(mb) & set(mt)):
+        fb, ft = mb[n], mt[n]
+        # quick path: the trees are equal after plain normalisation
+        d0 = _diff(normalize_function(fb), normalize_function(ft))
+        if d0 is None:
+            if _deco(fb) == _deco(ft):
+                run.ok('C20.R2', n, 'normalised trees equal', nontrivial=True, loc=tmpl.loc(ft))
+            else:
+                run.bad('C20.R2', n, 'decorators', f'decorators differ: base {sorted(_deco(fb))} vs template {sorted(_deco(ft))}',
+                        loc=tmpl.loc(ft))
+            continue
+        kws = kwnames.get(n.rsplit('.', 1)[-1], set())
+        cb, ct = canonical(fb, ctx_b, kws), canonical(ft, ctx_t, kws)
+        # holes of the template stand for the empty literals of the base
+        es = [e for e in edit_script(cb, ct) if not (isinstance(e[2], ast.AST) and isinstance(e[3], ast.AST) and _hole_ok(e[2], e[3]))]
+        if not es:
+            if _deco(fb) == _deco(ft):
+                run.ok('C20.R2', n, 'canonical trees equal (the copies are spelled differently)', nontrivial=True, loc=tmpl.loc(ft))
+            else:
+                run.bad('C20.R2', n, 'decorators', f'decorators differ: base {sorted(_deco(fb))} vs template {sorted(_deco(ft))}',
+                        loc=tmpl.loc(ft))
+            continue
+        local = all(k in ('atom', 'wrap', 'insert') for k, *_ in es) and len(es) <= MAX_LOCAL_EDITS
+        # statements present only in the base together with statements present only in the template are a replacement (one
+        # way of writing exchanged for another), not a local patch
+        ins = [e for e in es if e[0] == 'insert']
+        if any(e[2] is None for e in ins) and any(e[3] is None for e in ins):
+            local = False
+        if local:
+            for k, path, xa, xb in es:
+                la = base.loc(xa) if isinstance(xa, ast.AST) and hasattr(xa, 'lineno') else base.loc(fb)
+                lb = tmpl.loc(xb) if isinstance(xb, ast.AST) and hasattr(xb, 'lineno') else tmpl.loc(ft)
+                what = {'atom': 'differ in a name, constant or operator', 'wrap': 'differ: one copy applies an operation the other does '
+                        'not', 'insert': 'differ: one copy has a statement / clause the other lacks'}[k]
+                run.bad('C20.R2', n, 'tree-differs',
+                        f'the two copies of {n} {what} at {path}: base `{show(xa)}` ({la}) vs template `{show(xb)}` ({lb})',
+                        loc=lb, facts={'base': show(xa), 'template': show(xb), 'path': path, 'kind': k})
         else:
-            path, xa, xb = d
-            la = base.loc(xa) if isinstance(xa, ast.AST) and hasattr(xa, 'lineno') else base.loc(fb)
-            lb = tmpl.loc(xb) if isinstance(xb, ast.AST) and hasattr(xb, 'lineno') else tmpl.loc(ft)
-            run.bad('C20.R2', n, 'tree-differs',
-                    f'the two copies of {n} differ at {path}: base `{show(xa)}` ({la}) vs template `{show(xb)}` ({lb})',
-                    loc=lb, facts={'base': show(xa), 'template': show(xb), 'path': path})
+            k, path, xa, xb = next((e for e in es if e[0] == 'structural'), es[0])
+            undecided.append(n)
+            run.note(f'C20.R2 UNDECIDED {n}: the two copies are written differently ({len(es)} differences, first structural one at '
+                     f'{path}: base `{show(xa)[:80]}` vs template `{show(xb)[:80]}`); their agreement is neither established nor refuted '
+                     f'by tree comparison')
+    if undecided:
+        print(f'UNDECIDED: property=C20 members={",".join(undecided)} (the copies are spelled differently beyond the canonical form; '
+              f'agreement of these members is not covered by this run)')
+        run.extra['undecided_members'] = undecided
+    if len(undecided) > MAX_UNDECIDED:
+        raise AnalysisError('C20.R2', f'{len(undecided)} members are written differently in the two copies beyond what the canonical '
+                                      f'form covers: the comparison no longer decides the property')
 
     # R3 ---------------------------------------------------------------------------------------
-    for n in sorted(set(base.members) & set(tmpl.members)):
-        fb, ft = base.members[n], tmpl.members[n]
+    for n in sorted(set(mb) & set(mt)):
+        fb, ft = mb[n], mt[n]
         free = _free_names(fb) | _free_names(ft)
         free -= {'self', 'cls'}
         if not free:
